@@ -146,15 +146,13 @@ def gradient(t, dim="all", bounds=None):
 
     if dim == "all":
         dim = range(t.dim())
-    if bounds is None:
-        bounds = [[0, t.shape[d]] for d in dim]
-    if not hasattr(bounds, "__len__"):
-        bounds = [bounds] * len(dim)
-
     if not hasattr(dim, "__len__"):
-        return tn.partial(t, dim, bounds)
-    else:
-        return [tn.partial(t, d, order=1, bounds=b) for d, b in zip(dim, bounds)]
+        return tn.partial(t, dim, order=1, bounds=bounds)
+    if bounds is None:
+        bounds = [None] * len(dim)
+    elif not hasattr(bounds[0], "__len__"):
+        bounds = [bounds] * len(dim)
+    return [tn.partial(t, d, order=1, bounds=b) for d, b in zip(dim, bounds)]
 
 
 def active_subspace(t, bounds, marginals=None):
